@@ -30,6 +30,8 @@ CONFIGS = {
     'sse41': ('', 'release', '-C target-feature=+sse4.1', '', []),
     'avx': ('', 'release', '-C target-feature=+avx', '', []),
     'avx2': ('', 'release', '-C target-feature=+avx2', '', []),
+    'shani': ('', 'release', '-C target-feature=+sha,+sse4.1', '', []),     # where a SHA-NI block function would be selected
+    'os': ('', 'release', '-C opt-level=s', '', []),             # size-optimised build (loops that opt-level 3 vectorises stay loops)
     'cgu1': ('', 'release', '-C codegen-units=1', '', []),      # whole-crate optimisation (what codegen-units = 1 / LTO release profiles get)
     'curveonly': ('', 'release', '', 'curveonly', ['--no-default-features']),   # the library compiled with the ed25519 + x25519 features only (C19 victim)
     'f32': ('', 'release', '', 'f32', []),
